@@ -49,7 +49,11 @@ impl SuperficialLossInfo {
     ) -> GreaterEqualZeroDecimal {
         let zero = GreaterEqualZeroDecimal::zero();
         let mut total = GreaterEqualZeroDecimal::zero();
-        for af in &self.buying_affiliates {
+        // Sum in a fixed order (decimal rounding depends on the order of operands)
+        let mut sorted_buying_affiliates: Vec<&Affiliate> =
+            self.buying_affiliates.iter().collect();
+        sorted_buying_affiliates.sort_by(|a, b| a.id().cmp(b.id()));
+        for af in sorted_buying_affiliates {
             total +=
                 *self.active_affiliate_spladj_shares_at_eop.get(af).unwrap_or(&zero);
         }
